@@ -41,6 +41,17 @@ ResolvePrefix(pop, x) ==
   ELSE IF m = {} THEN [outcome |-> "notfound", matching |-> {}]
   ELSE [outcome |-> "multiple", matching |-> m]
 
+(* the command line (commands/select): the first argument is tried as an id prefix; only when it matches nothing does the
+   selected entity (if any, and if it still exists) stand in, and then the arguments are left as they are.  A prefix matched
+   by several ids is an error listing them - never the selected entity.   sel: index of the selected entity, 0 = none,
+   -1 = a selection that no longer exists.   args: 0 = no argument, 1 = the prefix x is the first argument *)
+ResolveSelected(pop, x, hasArg, sel) ==
+  LET r == ResolvePrefix(pop, x) IN
+  IF hasArg /\ r.outcome = "found" THEN [outcome |-> "found", matching |-> r.matching, used |-> TRUE]
+  ELSE IF hasArg /\ r.outcome = "multiple" THEN [outcome |-> "multiple", matching |-> r.matching, used |-> FALSE]
+  ELSE IF sel >= 1 THEN [outcome |-> "found", matching |-> {sel}, used |-> FALSE]
+  ELSE [outcome |-> "novalid", matching |-> {}, used |-> FALSE]
+
 (* comments: a population of [bug, op] pairs (indices into a bug population and the comment's operation id) *)
 CommentMatching(bugs, comments, x) ==
   {i \in DOMAIN comments : IsPrefix(x, Combine(bugs[comments[i].bug], comments[i].op))}
